@@ -25,6 +25,18 @@ RULE = ("one case = (network, text); every case is fed to every single-string en
         "carried between networks (other Base58 checksum family incl. the GRS family, shared prefixes, random) in both "
         "directions; at least one text of every decoding path (Base58 address, WIF, private / public node, segwit, SEC, "
         "shaped, bad checksum, refused payload, seeds, electrum, numbers, pairs). "
+        "Nested identifiers: every pair of registered networks one of whose identifiers (symbol, registry code, network / "
+        "subnet name, HRP, SEC tag, a Base58 prefix spelled in hex or as raw characters; any letter case) begins or ends with "
+        "the other's: a fresh genuine text T of every kind of the longer-named network and the partner text x+T resp. T+x for "
+        "the shorter-named one (also a genuine text of the shorter one that begins with x, where one exists), both networks "
+        "asked in both orders in one process through every entry point, every answer judged by the text model. Refused calls: "
+        "every entry point is handed non-text arguments (None, bytes, bytearray, int, float, list, dict, tuple, a text with a "
+        "lone surrogate) before the judged workload; the answer to a text must be the same before and after, the next valid "
+        "text must parse, a mutable argument must come back unchanged and be answered the same twice. Returned containers: "
+        "the dict a returned Contract hands out (info()) is edited and the same text (plain and as the same text object) asked "
+        "again. Long run: ONE network.parse object asked 2**16+128 times (2**17+128 in thorough) through address, payable and "
+        "parse() with distinct valid texts (expected script from the incremental reference), ONE text object asked as often, "
+        "returns to texts asked 1 ... 65537 calls ago, invalid texts, WIFs, and the full valid workload at 255 ... 65537. "
         "Non-trivial = non-empty text; distinct by (network, text) resp. (network, partner, text).")
 ASSUMPTIONS = [
     "declared prefixes / HRP / SEC tag are read from what the network's public encoders write (address.for_p2pkh / for_p2sh / "
@@ -47,6 +59,12 @@ ASSUMPTIONS = [
     "take part in the reuse histories, where the oracle is pycoin's own answer for the same characters as a fresh plain str",
     "reuse: a parser's answer for a text object that other entry points / networks have already looked at equals its answer "
     "for the same characters given as a plain str (same exception class, or equal object as defined above)",
+    "what an entry point answers to a text does not depend on what this or another network was asked before, on how many "
+    "calls went before, on a refused call in between, or on what the caller did to an object returned earlier: the model's "
+    "verdict for (network, text) applies after any history. A call with a non-text argument is never judged itself (it may "
+    "raise or answer anything); only the judged text calls around it are. contract.for_address and the command line tools, "
+    "which sit on parse.address, are not driven (not entry points of network.parse)",
+    "GRS / GRSRT / TGRS take no part in the nested-identifier pairs (no genuine text can be made for them here)",
     "a Base58 text spelled with hex digits only is also a numeral and a bare hex script literal: entry points with the "
     "free-form number / script parser behind them (secret_exponent, private_key, secret, script, payable, parse()) may return "
     "that reading; the statement gives no precedence between a checksummed and a free-form kind (pycoin's parse() returns "
@@ -94,7 +112,10 @@ def exhaustive(tier):
 
 def plan(tier, seed):
     k = 16 if tier == "quick" else 48
-    return [{"slice": i, "of": k, "scale": 1 if tier == "quick" else 70, "label": "nets%d/%d" % (i, k)} for i in range(k)]
+    shards = [{"slice": i, "of": k, "scale": 1 if tier == "quick" else 70, "label": "nets%d/%d" % (i, k)} for i in range(k)]
+    # one long run on one parse object / one text object (more than 2**16 + 100 uses; 2**17 + 100 in thorough)
+    # (about 30 s of CPU in quick; its own watchdog, so that a crowded machine does not cut it short)
+    return [{"longrun": True, "scale": 1 if tier == "quick" else 70, "label": "longrun", "timeout": 3600 if tier == "quick" else 3 * 3600}] + shards
 
 
 def selftest(rec):
@@ -191,6 +212,7 @@ def make_ctx(sym, net):
     c.quick = False
     c.own_hrp_collision = False
     c.usable_codes = ()
+    c.prelude = None
     return c
 
 
@@ -417,6 +439,8 @@ def case_of(ctx, ep, text, must, expect):
         c["must"] = must
     if expect is not None:
         c["expect"] = list(expect)
+    if getattr(ctx, "prelude", None):
+        c["prelude"] = [list(x) for x in ctx.prelude]          # calls made before this one in the same process
     return c
 
 
@@ -1217,8 +1241,11 @@ def run_network(ctx, spec, rec):
     rng = shard_rng(spec["seed"], PROPERTY, spec["tier"], ctx.sym)
     scale = spec.get("scale", 1)
     valid = valid_workload(ctx, rng, scale)
+    # refused calls (non-text arguments) first: everything that follows is judged after them
+    run_errorpath(ctx, rec, shard_rng(spec["seed"], PROPERTY, spec["tier"], ctx.sym, "errorpath"), valid)
     for cls, text, eps, label, expect in valid:
         run_text(ctx, cls, text, rec, must_eps=eps, must=label, expect=expect)
+    run_vandal(ctx, rec, shard_rng(spec["seed"], PROPERTY, spec["tier"], ctx.sym, "vandal"), valid)
     if valid:
         rec.sample({"net": ctx.sym, "class": valid[0][0], "text": valid[0][1], "entry_points": len(ctx.eps)}, limit=2)
     # valid Base58 texts shaped like another format (begin with '<hrp>1', a key-text lead, the symbol; hex-only, one-case)
@@ -1230,6 +1257,8 @@ def run_network(ctx, spec, rec):
         rec.sample({"net": ctx.sym, "class": constructed[0][0], "text": constructed[0][1]}, limit=4)
     # one text object reused across entry points and networks
     run_reuse(ctx, spec, rec, shard_rng(spec["seed"], PROPERTY, spec["tier"], ctx.sym, "reuse"), valid, constructed)
+    # networks whose identifiers nest with this one's: constructed text pairs, both orders
+    run_nested(ctx, spec, rec, shard_rng(spec["seed"], PROPERTY, spec["tier"], ctx.sym, "nested"))
     texts = []
     texts += b58_workload(ctx, rng, scale)
     texts += bech32_workload(ctx, rng, scale)
@@ -1268,6 +1297,490 @@ def run_network(ctx, spec, rec):
     rec.ev("net." + ctx.sym)
 
 
+# ---------------------------------------------------------------------------------------------
+# nested identifiers: two registered networks one of whose identifiers (symbol, registry code, network / subnet name, HRP,
+# SEC tag, a Base58 prefix written in hex or as raw characters) begins / ends with the other's. Anything that files
+# answers under identifier + text (or text + identifier) confuses (L, T) with (S, x + T) resp. (S, T + x) where
+# identifier(L) = identifier(S) + x resp. x + identifier(S). For every such pair: T = a genuine text of every kind of L,
+# freshly made, the partner text built from it, both networks asked in both orders in this one process, every entry
+# point; each answer is judged by the text model (which knows nothing of what was asked before).
+
+NAME_ID_TYPES = ("symbol", "code", "network_name", "subnet_name", "hrp", "sec_prefix")
+WIDE_ID_TYPES = ("subnet_name", "prefix_hex", "prefix_raw")         # many pairs: fewer kinds of text each in quick
+
+
+def identifiers(ctx):
+    """-> {identifier type: set of spellings} of one network."""
+    net, P = ctx.net, ctx.params
+    d = {}
+
+    def add(t, v):
+        if isinstance(v, str) and v:
+            d.setdefault(t, set()).add(v)
+    add("symbol", getattr(net, "symbol", None))
+    add("code", ctx.sym)
+    add("network_name", getattr(net, "network_name", None))
+    add("subnet_name", getattr(net, "subnet_name", None))
+    add("hrp", P.hrp)
+    add("sec_prefix", P.sec_prefix if isinstance(P.sec_prefix, str) else None)
+    for t in ("symbol", "code", "network_name", "hrp", "sec_prefix"):
+        for v in list(d.get(t, ())):
+            d[t].add(v.lower())
+            d[t].add(v.upper())
+    for kind, prefix in P.b58_prefixes():
+        add("prefix_hex", prefix.hex())
+        add("prefix_raw", prefix.decode("latin-1"))
+    return d
+
+
+_NESTED = None
+
+
+def nested_pairs(contexts):
+    """-> sorted [(id type, S, L, where, x)]: identifier(L) = identifier(S) + x (where = 'lead') or x + identifier(S)
+    (where = 'tail'), x non-empty. One entry per (S, L, where, x) (the first identifier type showing it)."""
+    global _NESTED
+    if _NESTED is None:
+        ids = {c: identifiers(ctx) for c, ctx in contexts.items()}
+        seen, out = set(), []
+        for t in NAME_ID_TYPES + ("prefix_hex", "prefix_raw"):
+            for S in sorted(ids):
+                for L in sorted(ids):
+                    if S == L:
+                        continue
+                    for a in sorted(ids[S].get(t, ())):
+                        for b in sorted(ids[L].get(t, ())):
+                            if len(b) <= len(a):
+                                continue
+                            for where, x in (("lead", b[len(a):] if b.startswith(a) else None), ("tail", b[:-len(a)] if b.endswith(a) else None)):
+                                if x and (S, L, where, x) not in seen:
+                                    seen.add((S, L, where, x))
+                                    out.append((t, S, L, where, x))
+        _NESTED = out
+    return _NESTED
+
+
+def genuine_texts(ctx, rng, kinds=None):
+    """one freshly made genuine text per kind of the network -> rows like valid_workload's, keyed by kind."""
+    net, P = ctx.net, ctx.params
+    rows = {}
+    h20, h32 = rbytes(rng, 20), rbytes(rng, 32)
+    addr = net.address
+    for kind, f, h in (("p2pkh", addr.for_p2pkh, h20), ("p2sh", addr.for_p2sh, h20), ("p2pkh_segwit", addr.for_p2pkh_wit, h20),
+                       ("p2sh_segwit", addr.for_p2sh_wit, h32), ("p2tr", addr.for_p2tr, h32)):
+        if kinds is not None and kind not in kinds:
+            continue
+        st, t = observe(f, h)
+        if st == "ok" and isinstance(t, str) and t == KT.address_text(P, kind, h):
+            rows[kind] = ("nested." + kind, t, (kind, "address", "payable", "__call__"), kind + "_address", ("contract", KT.script_for(kind, h)))
+    se = rng.randrange(1, N)
+    if kinds is None or "number" in kinds:
+        rows["number"] = ("nested.number", str(se), None, None, None)
+    if kinds is None or "seed" in kinds:
+        rows["seed"] = ("nested.seed", "H:" + rbytes(rng, 16).hex(), None, None, None)
+    if kinds is None or {"wif", "sec_text", "sec_hex"} & set(kinds):
+        k = net.keys.private(se, is_compressed=bool(rng.randrange(2)))
+        if P.wif is not None and (kinds is None or "wif" in kinds):
+            rows["wif"] = ("nested.wif", k.wif(), ("wif", "private_key", "secret", "__call__"), "wif_text", sig(k))
+        pub = k.public_copy()
+        if kinds is None or "sec_text" in kinds:
+            rows["sec_text"] = ("nested.sec_text", pub.as_text(), ("sec", "public_key"), "sec_text", sig(pub))
+        if kinds is None or "sec_hex" in kinds:
+            rows["sec_hex"] = ("nested.sec_hex", pub.sec().hex(), ("sec", "public_key"), "sec_hex", sig(pub))
+    if (kinds is None or {"bip32_prv", "bip32_pub"} & set(kinds)) and P.prefix("bip32_prv") is not None and P.prefix("bip32_pub") is not None:
+        nd = net.keys.bip32_seed(rbytes(rng, 16))
+        if kinds is None or "bip32_prv" in kinds:
+            rows["bip32_prv"] = ("nested.bip32_prv", nd.hwif(as_private=True), ("bip32_prv", "bip32", "hierarchical_key", "secret", "__call__"), "bip32_prv_text", sig(nd))
+        if kinds is None or "bip32_pub" in kinds:
+            rows["bip32_pub"] = ("nested.bip32_pub", nd.hwif(as_private=False), ("bip32_pub", "bip32", "hierarchical_key", "__call__"), "bip32_pub_text", sig(nd.public_copy()))
+    return rows
+
+
+NESTED_KINDS = ("p2pkh", "p2sh", "p2pkh_segwit", "p2sh_segwit", "p2tr", "wif", "bip32_prv", "bip32_pub", "sec_text", "sec_hex", "number", "seed")
+
+
+def prefix_kinds_for(ctxL, t, x, where, S_ids):
+    """kinds of L whose Base58 prefix shows the nesting (prefix identifier types), else ()."""
+    out = []
+    for kind, prefix in ctxL.params.b58_prefixes():
+        w = prefix.hex() if t == "prefix_hex" else prefix.decode("latin-1")
+        rest = w[len(x):] if where == "tail" else w[:-len(x)]
+        if (w.startswith(x) if where == "tail" else w.endswith(x)) and rest in S_ids.get(t, ()):
+            out.append(kind if kind in NESTED_KINDS else "bip32_prv" if kind.endswith("prv") else "bip32_pub")
+    return out
+
+
+class HistoryRec(object):
+    """the recorder, for calls judged after other calls of a history: a violation found there is named after the kind of
+    history as well (the same text may well be answered rightly by a process that was not asked the other things)."""
+
+    def __init__(self, rec, tag):
+        self._rec, self._tag = rec, tag
+
+    def __getattr__(self, name):
+        return getattr(self._rec, name)
+
+    def violation(self, mech, *a, **kw):
+        return self._rec.violation("%s.%s" % (self._tag, mech), *a, **kw)
+
+
+HISTORY_TAG = {"text": "after_other_network", "junk": "after_refused_call", "longrun": "longrun"}
+
+
+def with_prelude(ctx, prelude, f, *a, **kw):
+    """f(*a) with ctx.prelude set (it goes into the case of every violation, for replay); the recorder among `a` names
+    violations after the kind of prelude."""
+    ctx.prelude = prelude
+    if prelude:
+        a = tuple(HistoryRec(x, HISTORY_TAG[prelude[0][0]]) if hasattr(x, "viol_count") else x for x in a)
+    try:
+        return f(*a, **kw)
+    finally:
+        ctx.prelude = None
+
+
+def run_nested(ctxL, spec, rec, rng):
+    contexts = all_contexts()
+    quick = spec.get("scale", 1) == 1
+    good = set(ctxL.usable_codes)
+    mine = [p for p in nested_pairs(contexts) if p[2] == ctxL.sym]
+    if quick:
+        # the Base58-prefix nestings are many (a one-byte prefix begins many four-byte ones): a third of them per run,
+        # at least one of each spelling for every network that has any
+        kept, have = [], set()
+        for p in mine:
+            if p[0] not in ("prefix_hex", "prefix_raw") or rng.random() < 0.3 or p[0] not in have:
+                kept.append(p)
+                have.add(p[0])
+        mine = kept
+    for n, (t, S, L, where, x) in enumerate(mine):
+        rec.require("nested.id." + t)
+        if S not in good or L not in good:
+            rec.ev("nested.pair_without_text_model")
+            rec.ev("nested.id." + t)            # nothing can be built for a network whose checksum cannot be computed
+            continue
+        ctxS = contexts[S]
+        if t in WIDE_ID_TYPES and quick:
+            own = prefix_kinds_for(ctxL, t, x, where, identifiers(ctxS)) if t != "subnet_name" else ["p2pkh"]
+            kinds = set(own[:1]) | {NESTED_KINDS[(n + rng.randrange(len(NESTED_KINDS))) % len(NESTED_KINDS)]}
+        else:
+            kinds = None
+        rec.require("nested.order.long_first", "nested.order.short_first", "nested.long_side_judged", "nested.short_side_judged")
+        for order in ("long_first", "short_first"):
+            rows = genuine_texts(ctxL, rng, kinds)
+            for kind in sorted(rows):
+                cls, T, eps, label, expect = rows[kind]
+                other = x + T if where == "lead" else T + x
+                rec.case(("nested", S, L, where, x, order, kind), nontrivial=True, n=0)
+
+                def long_side(prelude):
+                    with_prelude(ctxL, prelude, run_text, ctxL, cls, T, rec, must_eps=eps, must=label, expect=expect)
+                    rec.ev("nested.long_side_judged")
+
+                def short_side(prelude):
+                    with_prelude(ctxS, prelude, run_text, ctxS, "nested.partner_text." + where, other, rec)
+                    rec.ev("nested.short_side_judged")
+                if order == "long_first":
+                    long_side(None)
+                    short_side([["text", L, T]])
+                else:
+                    short_side(None)
+                    long_side([["text", S, other]])
+            rec.ev("nested.order." + order)
+        # the other direction: a genuine text of S that itself begins with x, and its remainder given to L
+        if where == "lead" and all(ch in RB.ALPHABET for ch in x):
+            PS = ctxS.params
+            forms = [(k, PS.prefix(k), 20, b"") for k in KT.B58_ADDR_KINDS if PS.prefix(k) is not None]
+            if PS.wif is not None:
+                forms.append(("wif", PS.wif, 33, b"\x01"))
+            for order in ("long_first", "short_first"):
+                for kind, prefix, blen, tail in forms:
+                    body = SH.body_with_lead(prefix, blen, x, rng, tail=tail)
+                    if body is None or (kind == "wif" and not 1 <= int.from_bytes(body[:32], "big") < N):
+                        continue
+                    T = RB.encode_check(prefix + body)
+                    rec.ev("nested.genuine_short_text_begins_with_x")
+                    must = {}
+                    if kind != "wif" and not (PS.p2sh == PS.p2pkh):
+                        must = dict(must_eps=(kind, "address", "payable", "__call__"), must=kind + "_address", expect=("contract", KT.script_for(kind, body)))
+                    steps = [(ctxS, T, [["text", L, T[len(x):]]], must), (ctxL, T[len(x):], [["text", S, T]], {})]
+                    first, second = steps if order == "short_first" else steps[::-1]
+                    with_prelude(first[0], None, run_text, first[0], "nested.strip." + kind, first[1], rec, **first[3])
+                    with_prelude(second[0], second[2], run_text, second[0], "nested.strip." + kind, second[1], rec, **second[3])
+        rec.ev("nested.id." + t)
+        rec.ev("nested.pair")
+
+
+# ---------------------------------------------------------------------------------------------
+# refused calls between judged calls: an entry point given something that is no text (None, bytes, a number, a list ...)
+# or a text it cannot encode (a lone surrogate) may refuse - that is never judged - but what it answers to text
+# afterwards must be what it answered before, and a fresh valid text must still parse (class A). A mutable argument must
+# come back unchanged, and asked twice with it the entry point answers the same (class C).
+
+def _junk_makers():
+    return (
+        ("none", lambda t: None),
+        ("bytes", lambda t: t.encode("utf8", "replace")),
+        ("bytearray", lambda t: bytearray(t.encode("utf8", "replace"))),
+        ("int", lambda t: 2 ** 64),
+        ("float", lambda t: 1.5),
+        ("list", lambda t: [t]),
+        ("dict", lambda t: {t: t}),
+        ("surrogate_text", lambda t: t[:1] + "\ud800" + t[1:]),
+        ("str_tuple", lambda t: (t, t)),
+    )
+
+
+JUNK = _junk_makers()
+
+
+def fallback_probe(ep, rng):
+    se = rng.randrange(1, N)
+    return {"secret_exponent": str(se), "as_number": str(se), "public_pair": "%d/even" % X_POINT, "bip32_seed": "H:" + rbytes(rng, 16).hex(),
+            "hd_seed": "H:" + rbytes(rng, 16).hex(), "electrum_seed": "E:%064x" % se, "electrum_prv": "E:%064x" % se,
+            "electrum_pub": "E:%064x%064x" % KT.pubpoint(se), "script": "OP_DUP OP_HASH160 [%s] OP_EQUALVERIFY OP_CHECKSIG" % rbytes(rng, 20).hex()}.get(ep, str(se))
+
+
+def run_errorpath(ctx, rec, rng, valid):
+    probes = {}
+    for cls, text, eps, label, expect in valid:
+        for ep in eps or ():
+            probes.setdefault(ep, []).append((text, label, expect))
+    if "parse_b58_hashed" in ctx.fn:
+        probes["parse_b58_hashed"] = [(r[1], None, None) for r in valid if r[3] and (r[3].endswith("_address") or r[3] == "wif_text") and not r[3].endswith("segwit_address") and r[3] != "p2tr_address"][:4]
+    njunk = 3 if ctx.quick else len(JUNK)
+    for j, ep in enumerate(ctx.eps):
+        fn = ctx.fn[ep]
+        rows = probes.get(ep) or [(fallback_probe(ep, rng), None, None)]
+        t1 = rng.choice(rows)[0]
+        before = outcome(fn, t1)
+        start = rng.randrange(len(JUNK))
+        for k in range(njunk):
+            name, mk = JUNK[(start + k) % len(JUNK)]
+            val = mk(t1)
+            keep = bytearray(val) if isinstance(val, bytearray) else list(val) if isinstance(val, list) else dict(val) if isinstance(val, dict) else None
+            o1 = outcome(fn, val)
+            rec.ev("errorpath.junk." + name)
+            rec.ev("errorpath.refused_call" if o1[0] == "exc" else "errorpath.nontext_answered")
+            case = {"errorpath": name, "net": ctx.sym, "ep": ep, "text": "t:" + t1}
+            if keep is not None:
+                rec.ev("argument.mutable_judged")
+                if val != keep:
+                    rec.violation("argument.%s.caller_owned_%s_modified" % (ep, name), case, repr(val)[:200], repr(keep)[:200])
+                    continue
+                o2 = outcome(fn, val)
+                if o2 != o1:
+                    rec.violation("argument.%s.second_call_with_same_%s_differs" % (ep, name), case, o2, o1)
+                    continue
+            after = outcome(fn, t1)
+            rec.ev("errorpath.answer_compared")
+            if after != before:
+                rec.violation("errorpath.%s.answer_changes_after_refused_call" % ep, case, after, before)
+                break
+            t2, m2, e2 = rng.choice(rows)
+            with_prelude(ctx, [["junk", ctx.sym, ep, name, t1]], judge, ctx, ep, t2, KT.analyse(ctx.params, t2), rec, must=m2, expect=e2)
+            rec.ev("errorpath.next_call_judged")
+
+
+# ---------------------------------------------------------------------------------------------
+# returned containers edited by the caller (class C): Contract.info() hands out the dict the contract is made of. A caller
+# that edits it must not change what the parser answers to the same text (plain, or the same text object) later.
+
+def vandalise(obj, rng):
+    """edit every mutable container a public accessor of the returned object hands out -> number of containers edited."""
+    n = 0
+    for name in ("info",):
+        f = getattr(obj, name, None)
+        st, d = observe(f) if callable(f) else ("exc", None)
+        if st == "ok" and isinstance(d, dict):
+            for k in list(d):
+                v = d[k]
+                if isinstance(v, (bytes, bytearray)) and len(v):
+                    d[k] = bytes(b ^ 0x5a for b in v)
+                elif isinstance(v, str):
+                    d[k] = v + "x"
+                elif isinstance(v, int) and not isinstance(v, bool):
+                    d[k] = v + 1
+                elif isinstance(v, list):
+                    v.append(v[0] if v else 0)
+            d["vmon"] = b"edited"
+            n += 1
+        elif st == "ok" and isinstance(d, (list, bytearray, set)):
+            d.clear()
+            n += 1
+    return n
+
+
+def run_vandal(ctx, rec, rng, valid):
+    rows, seen = [], set()
+    order = list(valid)
+    rng.shuffle(order)
+    for cls, text, eps, label, expect in order:
+        if label and label.endswith("_address") and expect is not None and (label not in seen or not ctx.quick):
+            seen.add(label)
+            rows.append((text, eps, expect))
+    if "script" in ctx.fn:
+        h = rbytes(rng, 20)
+        rows.append(("OP_DUP OP_HASH160 [%s] OP_EQUALVERIFY OP_CHECKSIG" % h.hex(), ("script", "payable", "__call__"), None))
+    mk = getattr(ctx.net, "parseable_str_type", None)
+    for text, eps, expect in rows:
+        for ep in eps:
+            fn = ctx.fn.get(ep)
+            if fn is None:
+                continue
+            for arg in (text, mk(text)) if mk is not None else (text,):
+                st, v = observe(fn, arg)
+                if st != "ok" or v is None:
+                    continue            # judged elsewhere
+                before = observe(sig, v)
+                if not vandalise(v, rng):
+                    rec.ev("returned.no_mutable_container")
+                    continue
+                rec.ev("returned.container_edited")
+                after = outcome(fn, arg)
+                want = ("ok", tuple(expect)) if expect is not None else before
+                if after != want:
+                    rec.violation("returned.%s.caller_edit_changes_later_answer" % ep,
+                                  {"vandal": True, "net": ctx.sym, "ep": ep, "text": "t:" + text, "shared": arg is not text}, after, want)
+
+
+# ---------------------------------------------------------------------------------------------
+# the N-th operation (class B): ONE network.parse object asked more than 2**16 + 100 times through each of its cheap
+# dispatching entry points, ONE text object asked as often, every answer judged against the incremental reference
+# (hash i -> text by the reference codec -> expected script), with returns to texts asked 1, 2, 4095 ... 65537 calls ago.
+
+LONGRUN_BACK = (1, 2, 255, 256, 257, 4095, 4096, 4097, 65535, 65536, 65537)
+LONGRUN_CHECKPOINTS = (255, 256, 4095, 4096, 4097, 8192, 16384, 32768, 65535, 65536, 65537)
+
+
+def longrun_text(P, base, i):
+    """-> (kind, text, script) of step i: mostly P2PKH, every eighth a P2SH, every eighth a v0 segwit address."""
+    h = ((base + i * 0x9e3779b97f4a7c15) & ((1 << 160) - 1)).to_bytes(20, "big")
+    r = i & 7
+    if r == 5 and P.p2sh is not None and P.p2sh != P.p2pkh:
+        return "p2sh", RB.encode_check(P.p2sh + h), KT.script_p2sh(h)
+    if r == 6 and P.hrp:
+        return "p2pkh_segwit", R32.segwit_encode(P.hrp, 0, h), KT.script_witness(0, h)
+    return "p2pkh", RB.encode_check(P.p2pkh + h), KT.script_p2pkh(h)
+
+
+def run_longrun(spec, rec, stop=None, base=None, code=None):
+    import contextlib
+    import io
+    good, skipped = usable_networks()
+    with contextlib.redirect_stdout(io.StringIO()):
+        contexts = all_contexts()
+    usable = [s for s, _ in good if contexts[s].params.p2pkh is not None and contexts[s].params.wif is not None]
+    if code is None:
+        code = "BTC" if "BTC" in usable else (usable[0] if usable else None)
+    if code is None:
+        rec.require("longrun.network_available")
+        return
+    ctx = contexts[code]
+    ctx.quick = True
+    ctx.usable_codes = tuple(s for s, _ in good)
+    P = ctx.params
+    Key, BIP32Node, BIP49Node, BIP84Node, ElectrumWallet, Contract = _classes()
+    rng = shard_rng(spec["seed"], PROPERTY, spec["tier"], "longrun")
+    if base is None:
+        base = rng.getrandbits(160)
+    total = (2 ** 16 if spec.get("tier") == "quick" else 2 ** 17) + 128
+    if stop is not None:
+        total = min(total, stop)
+    eps = [e for e in ("address", "payable", "__call__") if e in ctx.fn]
+    fns = [(e, ctx.fn[e]) for e in eps]
+    specific = {k: ctx.fn.get(k) for k in ("p2pkh", "p2sh", "p2pkh_segwit")}
+    for e in eps:
+        rec.require("longrun.ops." + e)
+    rec.require("longrun.ops.text_object", "longrun.ops.revisit", "longrun.ops.invalid", "longrun.beyond_2_16", "longrun.checkpoint")
+    mk = getattr(ctx.net, "parseable_str_type", None)
+    k0, t0, s0 = longrun_text(P, base, 0)
+    shared = mk(t0) if mk is not None else None
+    valid = None
+    nviol = [0]
+    counts = {}
+
+    def bad(mech, ep, i, text, got, want):
+        nviol[0] += 1
+        rec.violation(mech, {"longrun": True, "net": code, "ep": ep, "index": i, "base": "%040x" % base, "text": "t:" + text}, got, want)
+
+    def ask(label, ep, fn, arg, i, text, script):
+        counts[label] = counts.get(label, 0) + 1
+        try:
+            v = fn(arg)
+        except Exception as e:      # noqa
+            bad("longrun.%s.raises" % ep, ep, i, text, e, "an object or None")
+            return
+        if script is None:
+            if v is not None:
+                if RB.decode_check(text) is not None:
+                    rec.ev("inconclusive:longrun_invalid_text_is_valid")
+                else:
+                    bad("longrun.%s.accepts_invalid_text" % ep, ep, i, text, observe(sig, v)[1], None)
+            return
+        if v is None:
+            bad("longrun.%s.refuses_valid_text" % ep, ep, i, text, None, ("contract", script))
+        elif not isinstance(v, Contract) or v.script() != script:
+            bad("longrun.%s.returns_other_object" % ep, ep, i, text, observe(sig, v)[1], ("contract", script))
+
+    wif_eps = [e for e in ("private_key", "wif", "secret") if e in ctx.fn]
+    for i in range(total):
+        kind, text, script = longrun_text(P, base, i)
+        for ep, fn in fns:
+            ask(ep, ep, fn, text, i, text, script)
+        if shared is not None:
+            ask("text_object", "p2pkh", specific["p2pkh"], shared, i, t0, s0)
+        if i & 3 == 1:
+            d = LONGRUN_BACK[(i >> 2) % len(LONGRUN_BACK)]
+            j = i - d if i >= d else i // 2
+            k2, text2, script2 = longrun_text(P, base, j)
+            ep, fn = fns[(i >> 2) % len(fns)]
+            ask("revisit", ep, fn, text2, i, text2, script2)
+        if i & 7 == 2:
+            last = text[-1]
+            wrong = text[:-1] + ("q" if last != "q" else "p") if kind == "p2pkh_segwit" else text[:-1] + ("2" if last != "2" else "3")
+            ask("invalid", "address", ctx.fn["address"], wrong, i, wrong, None)
+            if specific.get(kind):
+                ask("invalid", kind, specific[kind], wrong, i, wrong, None)
+        if i & 7 == 4 and wif_eps:
+            se = (base + i) % (N - 1) + 1
+            comp = bool(i & 8)
+            wt = KT.wif_text(P, se, comp)
+            ep = wif_eps[0] if (i >> 4) % 8 else wif_eps[(i >> 7) % len(wif_eps)]
+            counts["wif." + ep] = counts.get("wif." + ep, 0) + 1
+            st, v = observe(ctx.fn[ep], wt)
+            if st == "exc":
+                bad("longrun.%s.raises" % ep, ep, i, wt, v, "a key")
+            elif v is None:
+                bad("longrun.%s.refuses_valid_text" % ep, ep, i, wt, None, ("key", se, comp))
+            elif not isinstance(v, Key) or v.secret_exponent() != se or bool(v.is_compressed()) != comp:
+                bad("longrun.%s.returns_other_object" % ep, ep, i, wt, observe(sig, v)[1], ("key", se, comp))
+        if i in LONGRUN_CHECKPOINTS or i == total - 1:
+            # every entry point, every kind of text, judged by the full model, at the counts where a table may turn over
+            if valid is None:
+                vr = shard_rng(spec["seed"], PROPERTY, spec["tier"], "longrun", "valid")
+                rows, seen = valid_workload(ctx, vr, 1), set()
+                valid = [r for r in rows if not (r[3] in seen or seen.add(r[3]))]
+            with contextlib.redirect_stdout(io.StringIO()):
+                for cls, t, e, label, expect in valid:
+                    with_prelude(ctx, [["longrun", code, i, "%040x" % base]], run_text, ctx, "longrun.checkpoint", t, rec, must_eps=e, must=label, expect=expect)
+            rec.ev("longrun.checkpoint")
+        if i & 1023 == 1023:
+            rec.case(("longrun", code, i), nontrivial=True, n=1024)
+        if nviol[0] >= 6:
+            break
+    else:
+        if total > 2 ** 16 + 100:
+            rec.ev("longrun.beyond_2_16")
+    for k, n in counts.items():
+        if k in eps or k == "text_object":
+            # counted only when the resource really was used more than 2**16 + 100 times
+            rec.ev("longrun.ops." + k, n if n > 2 ** 16 + 100 or stop is not None else 0)
+        else:
+            rec.ev("longrun.ops." + k, n)
+    rec.sample({"longrun": code, "operations": counts}, limit=5)
+
+
 REFUSAL_REASONS = ("length", "range", "marker", "keybyte", "keytype", "point", "segwit")
 
 
@@ -1297,6 +1810,8 @@ def shares_prefix_between_kinds(P):
 def run_shard(spec, rec):
     import contextlib
     import io
+    if spec.get("longrun"):
+        return run_longrun(spec, rec)
     good, skipped = usable_networks()
     NETS.require_registry(rec, good, skipped)
     mine = good[spec["slice"]::spec["of"]]
@@ -1329,6 +1844,8 @@ def run_shard(spec, rec):
         if any(shares_prefix_between_kinds(all_contexts()[sym].params) for sym, _ in mine):
             rec.require("kindsep.shared_prefix_judged")
         rec.require("reuse.samenet.step", "reuse.crossnet.step")
+        rec.require("errorpath.refused_call", "errorpath.answer_compared", "errorpath.next_call_judged", "argument.mutable_judged",
+                    "returned.container_edited", *["errorpath.junk." + name for name, _ in JUNK])
         if len({checksum_family(c) for c in all_contexts().values()}) > 1:
             rec.require("reuse.crossnet.other_checksum_family")
         if any(all_contexts()[sym].own_hrp_collision for sym, _ in mine if sym in all_contexts()):
@@ -1357,11 +1874,71 @@ def replay_case(case, rec):
         text = str(text)
     if text.startswith("t:"):
         text = text[2:]
+    if case.get("longrun"):
+        # the fault is one of count: run the same sequence again up to (and including) the reported step
+        import contextlib
+        import io
+        with contextlib.redirect_stdout(io.StringIO()):
+            spec = {"seed": 0, "tier": "quick"}
+            run_longrun(spec, rec, stop=int(case["index"]) + 1, base=int(_hexstr(case["base"]), 16), code=case["net"])
+        return
+    if case.get("errorpath"):
+        fn = ctx.fn[case["ep"]]
+        before = outcome(fn, text)
+        val = dict(JUNK)[case["errorpath"]](text)
+        keep = bytearray(val) if isinstance(val, bytearray) else list(val) if isinstance(val, list) else dict(val) if isinstance(val, dict) else None
+        o1 = outcome(fn, val)
+        if keep is not None and val != keep:
+            rec.violation("argument.%s.caller_owned_%s_modified" % (case["ep"], case["errorpath"]), case, repr(val)[:200], repr(keep)[:200])
+        elif keep is not None and outcome(fn, val) != o1:
+            rec.violation("argument.%s.second_call_with_same_%s_differs" % (case["ep"], case["errorpath"]), case, None, o1)
+        elif outcome(fn, text) != before:
+            rec.violation("errorpath.%s.answer_changes_after_refused_call" % case["ep"], case, outcome(fn, text), before)
+        return
+    if case.get("vandal"):
+        fn = ctx.fn[case["ep"]]
+        arg = ctx.net.parseable_str_type(text) if case.get("shared") else text
+        st, v = observe(fn, arg)
+        if st == "ok" and v is not None:
+            before = observe(sig, v)
+            vandalise(v, None)
+            after = outcome(fn, arg)
+            if after != before:
+                rec.violation("returned.%s.caller_edit_changes_later_answer" % case["ep"], case, after, before)
+        return
+    for step in case.get("prelude") or ():
+        # what the process had been asked before (same order), then the judged call
+        step = list(step)
+        import contextlib
+        import io
+        with contextlib.redirect_stdout(io.StringIO()):
+            if step[0] == "longrun":
+                run_longrun({"seed": 0, "tier": "quick"}, rec, stop=int(step[2]) + 1, base=int(_hexstr(step[3]), 16), code=step[1])
+                return
+            if step[0] == "text":
+                t0 = step[2]
+                t0 = "x:" + t0.hex() if isinstance(t0, bytes) else str(t0)
+                other = make_ctx(step[1], network_for_netcode(step[1]))
+                for ep in other.eps:
+                    observe(other.fn[ep], t0)
+            elif step[0] == "junk":
+                t0 = step[4]
+                t0 = "x:" + t0.hex() if isinstance(t0, bytes) else str(t0)
+                observe(ctx.fn[step[2]], dict(JUNK)[step[3]](t0))
+    if case.get("prelude"):
+        rec = HistoryRec(rec, HISTORY_TAG[list(case["prelude"][0])[0]])
     A = KT.analyse(ctx.params, text)
     expect = case.get("expect")
     if expect is not None:
         expect = _restore_sig(expect)
     judge(ctx, case["ep"], text, A, rec, must=case.get("must"), expect=expect, deep=True)
+
+
+def _hexstr(v):
+    """a hex string as stored in a case (the json restorer may have turned it into bytes or an int)."""
+    if isinstance(v, bytes):
+        return v.hex()
+    return str(v)
 
 
 def _restore_sig(e):
